@@ -781,7 +781,8 @@ class PhaseField(_IModel):
             tr_e_pg = Trace(matrix_e_pg)
 
             # Eigenvalue calculations [e,pg]
-            delta = tr_e_pg**2 - (4 * det_e_pg)
+            # (xx - yy)^2 + 4 xy^2 >= 0: round-off must not make it negative for (nearly) repeated eigenvalues
+            delta = np.maximum(tr_e_pg**2 - (4 * det_e_pg), 0.0)
 
             eigs_e_pg = FeArray.zeros(Ne, nPg, 2)
             eigs_e_pg[:, :, 0] = (tr_e_pg - np.sqrt(delta)) / 2
